@@ -316,6 +316,15 @@ where
             return Err(anyhow!("invalid signature in trampoline invoice"));
         }
 
+        // The invoice must be for the payment hash of this htlc. Otherwise we
+        // would pay an invoice whose preimage cannot settle the htlc.
+        let invoice_payment_hash: &[u8] = invoice.payment_hash().as_ref();
+        if invoice_payment_hash != req.htlc.payment_hash.as_slice() {
+            return Err(anyhow!(
+                "trampoline invoice payment hash does not match htlc payment hash"
+            ));
+        }
+
         // Note that this may panic if the signature is not checked.
         let payee = invoice.get_payee_pub_key();
 
